@@ -110,6 +110,7 @@ fn make_router(sh: &Arc<Shared>, mw: bool) -> Router {
         .with_typed_blocking::<KIn, Value, _>("/hold_typed", move |i: KIn| -> Result<Value, (ErrorCode, String)> { hold(&c, i.k) })
         .with_typed_ctx_blocking::<KIn, Value, _>("/hold_tctx", move |_ctx: &CallContext, i: KIn| -> Result<Value, (ErrorCode, String)> { hold(&d, i.k) })
         .with_json("/ping", |_v| Ok(json!("pong")))
+        .with_json("/big", |v: Value| Ok(json!("x".repeat(v["n"].as_u64().unwrap_or(0) as usize))))
         .with_json("/fail", |v: Value| Err((code_of(v["c"].as_u64().unwrap_or(4) as u32), "asked to fail".into())));
     if mw {
         r.with_middleware(PassMw(sh.clone()))
@@ -123,19 +124,44 @@ struct Srv {
     sh: Arc<Shared>,
 }
 
-async fn start_server(cap: Option<usize>, mw: bool) -> Srv {
+fn build_server(cap: Option<usize>, mw: bool, ocap: Option<usize>) -> (WebSocketServer, Arc<Shared>) {
     let sh = Arc::new(Shared { gauge: AtomicI64::new(0), max_gauge: AtomicI64::new(0), gates: Mutex::new(HashMap::new()), events: Mutex::new(None), mw_calls: AtomicU64::new(0) });
-    let l = TcpListener::bind("127.0.0.1:0").await.unwrap();
-    let addr = l.local_addr().unwrap();
     let sh2 = sh.clone();
-    let server = WebSocketServer::new(make_router(&sh, mw)).with_offreader_limit(cap.unwrap_or(0)).on_error(move |e| match e {
+    let mut server = WebSocketServer::new(make_router(&sh, mw)).with_offreader_limit(cap.unwrap_or(0)).on_error(move |e| match e {
         ConnectionError::Saturation { .. } => sh2.emit(SrvEvent::Saturation),
         ConnectionError::HandlerPanic { .. } => sh2.emit(SrvEvent::Panic),
         _ => {}
     });
-    tokio::spawn(async move {
-        let _ = server.serve_listener(l, "/repe").await;
+    if let Some(o) = ocap {
+        server = server.with_outbound_capacity(o);
+    }
+    (server, sh)
+}
+
+/// `ocap = None`: default outbound queue, served on the harness's multi-thread runtime.
+/// `ocap = Some(n)`: outbound queue of `n`, served on a current-thread runtime of its own, so the
+/// connection's reader and writer tasks interleave only at their await points (pressure scenario).
+async fn start_server(cap: Option<usize>, mw: bool, ocap: Option<usize>) -> Srv {
+    if ocap.is_none() {
+        let (server, sh) = build_server(cap, mw, None);
+        let l = TcpListener::bind("127.0.0.1:0").await.unwrap();
+        let addr = l.local_addr().unwrap();
+        tokio::spawn(async move {
+            let _ = server.serve_listener(l, "/repe").await;
+        });
+        return Srv { addr, sh };
+    }
+    let (tx, rx) = tokio::sync::oneshot::channel();
+    std::thread::spawn(move || {
+        let rt = tokio::runtime::Builder::new_current_thread().enable_all().max_blocking_threads(64).build().unwrap();
+        rt.block_on(async move {
+            let (server, sh) = build_server(cap, mw, ocap);
+            let l = TcpListener::bind("127.0.0.1:0").await.unwrap();
+            let _ = tx.send((l.local_addr().unwrap(), sh));
+            let _ = server.serve_listener(l, "/repe").await;
+        });
     });
+    let (addr, sh) = rx.await.expect("pressure server started");
     Srv { addr, sh }
 }
 
@@ -144,14 +170,18 @@ async fn start_server(cap: Option<usize>, mw: bool) -> Srv {
 // ------------------------------------------------------------------------------------------------
 #[derive(Clone, Debug)]
 enum Op {
-    Cap { cap: Option<usize>, mw: bool },
+    Cap { cap: Option<usize>, mw: bool, ocap: Option<usize> },
+    /// the arrivals between `begin` and `end` are written to the socket in one piece and only then read
+    Burst { begin: bool },
     Arrive { id: u64, blocking: bool, notify: bool, ec: u32 },
     Exit { id: u64, cmd: Cmd },
 }
 
 fn op_line(idx: &str, op: &Op) -> String {
     match op {
-        Op::Cap { cap, mw } => format!("cap {} {} {}", idx, cap.map(|c| c.to_string()).unwrap_or("-".into()), *mw as u8),
+        Op::Cap { cap, mw, ocap: None } => format!("cap {} {} {}", idx, cap.map(|c| c.to_string()).unwrap_or("-".into()), *mw as u8),
+        Op::Cap { cap, mw, ocap: Some(o) } => format!("cap {} {} {} {}", idx, cap.map(|c| c.to_string()).unwrap_or("-".into()), *mw as u8, o),
+        Op::Burst { begin } => format!("burst {} {}", idx, if *begin { "begin" } else { "end" }),
         Op::Arrive { id, blocking, notify, ec } => format!("arrive {} {} {} {} {}", idx, id, if *blocking { "blocking" } else { "inline" }, *notify as u8, ec),
         Op::Exit { id, cmd } => format!("exit {} {} {}", idx, id, match cmd { Cmd::Ret => "ret".to_string(), Cmd::Err(c) => format!("err {}", c), Cmd::Panic => "panic".to_string() }),
     }
@@ -160,7 +190,10 @@ fn op_line(idx: &str, op: &Op) -> String {
 fn parse_op(line: &str) -> Option<(String, Op)> {
     let w = words(line);
     match w.as_slice() {
-        ["cap", idx, c, mw] => Some((idx.to_string(), Op::Cap { cap: if *c == "-" { None } else { Some(c.parse().ok()?) }, mw: *mw == "1" })),
+        ["cap", idx, c, mw] => Some((idx.to_string(), Op::Cap { cap: if *c == "-" { None } else { Some(c.parse().ok()?) }, mw: *mw == "1", ocap: None })),
+        ["cap", idx, c, mw, o] => Some((idx.to_string(), Op::Cap { cap: if *c == "-" { None } else { Some(c.parse().ok()?) }, mw: *mw == "1", ocap: Some(o.parse().ok()?) })),
+        ["burst", idx, "begin"] => Some((idx.to_string(), Op::Burst { begin: true })),
+        ["burst", idx, "end"] => Some((idx.to_string(), Op::Burst { begin: false })),
         ["arrive", idx, id, route, n, ec] => Some((idx.to_string(), Op::Arrive { id: id.parse().ok()?, blocking: *route == "blocking", notify: *n == "1", ec: ec.parse().ok()? })),
         ["exit", idx, id, "ret"] => Some((idx.to_string(), Op::Exit { id: id.parse().ok()?, cmd: Cmd::Ret })),
         ["exit", idx, id, "panic"] => Some((idx.to_string(), Op::Exit { id: id.parse().ok()?, cmd: Cmd::Panic })),
@@ -231,6 +264,15 @@ struct OpResult {
     obs: String,
     fails: Vec<(String, String)>,
     broken: bool,
+}
+
+const BIG: usize = 48 * 1024;
+
+fn request_frame_in(id: u64, blocking: bool, notify: bool, ec: u32, burst: bool) -> RawFrame {
+    if burst && !blocking && ec == 0 {
+        return RawFrame::request(id, notify, 1, b"/big", 2, serde_json::to_vec(&json!({ "n": BIG })).unwrap().as_slice());
+    }
+    request_frame(id, blocking, notify, ec)
 }
 
 fn request_frame(id: u64, blocking: bool, notify: bool, ec: u32) -> RawFrame {
@@ -319,6 +361,112 @@ async fn do_arrive(c: &mut Conn, idx: &str, id: u64, blocking: bool, notify: boo
     }
 }
 
+/// Pressure scenario: all arrivals of the burst go out in one write; nothing is read until the whole
+/// burst is on the wire (plus a pause).  The last arrival must be an inline request: the reader handles
+/// frames in order, so its answer marks the point where every earlier frame has been handled.
+async fn do_burst(c: &mut Conn, items: &[(String, u64, bool, bool, u32)]) -> (Vec<OpResult>, bool) {
+    let fail_all = |c: &Conn, items: &[(String, u64, bool, bool, u32)], sig: &str, detail: String, word: &str| -> (Vec<OpResult>, bool) {
+        let mut v: Vec<OpResult> = items.iter().map(|(idx, ..)| OpResult { obs: format!("{idx} {word} ; running {}", c.gauge()), fails: vec![], broken: false }).collect();
+        if let Some(l) = v.last_mut() {
+            l.fails.push((sig.to_string(), detail));
+            l.broken = true;
+        }
+        (v, true)
+    };
+    c.drain_events();
+    let parked_before = c.parked.len() as i64;
+    for (_, id, blocking, notify, ec) in items {
+        if *notify {
+            c.notifies.insert(*id);
+        }
+        let f = request_frame_in(*id, *blocking, *notify, *ec, true);
+        if let Err(e) = tokio::time::timeout(WATCHDOG, c.ws.feed(WsMsg::Binary(f.to_vec()))).await.map_err(|_| "feed timed out".to_string()).and_then(|r| r.map_err(|e| e.to_string())) {
+            return fail_all(c, items, "offreader.connection", format!("burst: {e}"), "closed");
+        }
+    }
+    if let Err(e) = tokio::time::timeout(WATCHDOG, c.ws.flush()).await.map_err(|_| "flush timed out".to_string()).and_then(|r| r.map_err(|e| e.to_string())) {
+        return fail_all(c, items, "offreader.connection", format!("burst: {e}"), "closed");
+    }
+    // read nothing for a while: answers pile up behind the one-slot outbound queue
+    tokio::time::sleep(Duration::from_millis(150)).await;
+    let n_blocking = items.iter().filter(|i| i.2).count();
+    let barrier = items.last().map(|i| i.1).unwrap_or(0);
+    let ids: BTreeSet<u64> = items.iter().map(|i| i.1).collect();
+    let mut entered: BTreeSet<u64> = BTreeSet::new();
+    let mut answers: BTreeMap<u64, Vec<u32>> = BTreeMap::new();
+    let mut sat = 0usize;
+    let deadline = Instant::now() + WATCHDOG;
+    let describe = |entered: &BTreeSet<u64>, answers: &BTreeMap<u64, Vec<u32>>, sat: usize| -> String {
+        let unresolved: Vec<u64> = items.iter().filter(|i| !entered.contains(&i.1) && !answers.contains_key(&i.1) && !(i.2 && i.3)).map(|i| i.1).collect();
+        format!("{} of {} requests of the burst neither started nor were answered: {:?} ({} started, {} answered, {} saturation reports)", unresolved.len(), items.len(), unresolved, entered.len(), answers.len(), sat)
+    };
+    while !(answers.contains_key(&barrier) && entered.len() + sat >= n_blocking) {
+        match c.next(deadline).await {
+            Seen::Event(SrvEvent::Entered(k)) if ids.contains(&k) => {
+                entered.insert(k);
+            }
+            Seen::Event(SrvEvent::Saturation) => sat += 1,
+            Seen::Event(_) => {}
+            Seen::Frame(f) if f.h.notify == 0 && ids.contains(&f.h.id) => answers.entry(f.h.id).or_default().push(f.h.ec),
+            Seen::Frame(f) => c.stray.push(f),
+            Seen::Timeout => {
+                let d = describe(&entered, &answers, sat);
+                return fail_all(c, items, "offreader.burst.unresolved", format!("burst written in one piece at cap {:?} with {} handler(s) parked before it: {} within {:?}", c.cap, parked_before, d, WATCHDOG), "timeout");
+            }
+            Seen::Closed(e) => {
+                let d = describe(&entered, &answers, sat);
+                return fail_all(c, items, "offreader.connection", format!("burst written in one piece at cap {:?}: {e}; {}", c.cap, d), "closed");
+            }
+        }
+    }
+    let mut out = Vec::new();
+    let mut running = parked_before;
+    let mut refused = 0usize;
+    for (idx, id, blocking, notify, _ec) in items {
+        let mut fails = Vec::new();
+        let what = if entered.contains(id) {
+            running += 1;
+            c.parked.insert(*id, *notify);
+            if let Some(a) = answers.get(id) {
+                fails.push(("offreader.response.dup".to_string(), format!("{idx}: request {id} started its handler and was also answered ({:?})", a)));
+            }
+            format!("admitted {id}")
+        } else if let Some(a) = answers.get(id) {
+            if a.len() != 1 {
+                fails.push(("offreader.response.dup".to_string(), format!("{idx}: request {id} answered {} times", a.len())));
+            }
+            if *notify {
+                fails.push(("offreader.notify_answered".to_string(), format!("{idx}: notify request {id} got a response (ec {})", a[0])));
+            }
+            if *blocking {
+                refused += 1;
+                if a[0] != RESOURCE_EXHAUSTED {
+                    fails.push(("offreader.saturation.reply".to_string(), format!("{idx}: refused request {id} was answered with ec {} (want {})", a[0], RESOURCE_EXHAUSTED)));
+                }
+            } else {
+                c.answered.insert(*id, a[0]);
+            }
+            format!("resp {} {}", id, a[0])
+        } else if *blocking && *notify {
+            refused += 1;
+            "dropped".to_string()
+        } else {
+            fails.push(("offreader.burst.unanswered".to_string(), format!("{idx}: request {id} of the burst was neither started nor answered although the request after it was")));
+            "none".to_string()
+        };
+        out.push(OpResult { obs: format!("{idx} {what} ; running {running}"), fails, broken: false });
+    }
+    if let Some(l) = out.last_mut() {
+        if sat != refused {
+            l.fails.push(("offreader.burst.saturation_reports".to_string(), format!("{} saturation reports for {} refused requests", sat, refused)));
+        }
+        if c.gauge() != running {
+            l.fails.push(("offreader.burst.gauge".to_string(), format!("{} handlers running after the burst, {} were seen to start", c.gauge(), running)));
+        }
+    }
+    (out, false)
+}
+
 async fn do_exit(c: &mut Conn, idx: &str, id: u64, cmd: Cmd) -> OpResult {
     let mut fails = Vec::new();
     let gate = c.sh.gates.lock().unwrap().remove(&id);
@@ -389,7 +537,7 @@ struct Gen {
 }
 impl Gen {
     fn new(cap: Option<usize>, mw: bool, base: u64) -> Gen {
-        Gen { ops: vec![Op::Cap { cap, mw }], running: Vec::new(), cap, next_id: base }
+        Gen { ops: vec![Op::Cap { cap, mw, ocap: None }], running: Vec::new(), cap, next_id: base }
     }
     fn arrive(&mut self, blocking: bool, notify: bool, ec: u32) -> u64 {
         self.next_id += 1;
@@ -490,6 +638,43 @@ fn order_script(cap: usize, mw: bool, base: u64, order: &[usize], kinds: &[Cmd],
     g.ops
 }
 
+/// Pressure script: outbound queue of one slot, server on a current-thread runtime.  `pre` handlers are
+/// parked one by one, then a burst written in one piece: the rest of the cap, `extra` more blocking
+/// requests that must be refused (some of them notifies), inline requests with sizeable answers in
+/// between, an inline request last.  Then the usual releases and the epilogue.
+fn pressure_script(r: &mut Rng, cap: usize, mw: bool, base: u64, pre: usize, extra: usize) -> Vec<Op> {
+    let mut g = Gen::new(Some(cap), mw, base);
+    g.ops[0] = Op::Cap { cap: Some(cap), mw, ocap: Some(1) };
+    for _ in 0..pre.min(cap) {
+        g.arrive(true, false, 0);
+    }
+    g.ops.push(Op::Burst { begin: true });
+    for _ in pre.min(cap)..cap {
+        g.arrive(true, r.chance(1, 8), 0);
+    }
+    for e in 0..extra {
+        if r.chance(1, 3) {
+            g.arrive(false, false, if r.chance(1, 5) { 4 } else { 0 });
+        }
+        g.arrive(true, e > 0 && r.chance(1, 6), 0);
+    }
+    g.arrive(false, false, 0);
+    g.ops.push(Op::Burst { begin: false });
+    g.arrive(false, false, 0);
+    // a second burst entirely at the cap
+    if r.chance(1, 2) {
+        g.ops.push(Op::Burst { begin: true });
+        for _ in 0..r.range(2, 6) {
+            g.arrive(true, false, 0);
+        }
+        g.arrive(false, false, 0);
+        g.ops.push(Op::Burst { begin: false });
+    }
+    g.exit_all(r);
+    g.epilogue(r);
+    g.ops
+}
+
 fn gen_scripts(r: &mut Rng, thorough: bool) -> Vec<Vec<Op>> {
     let mut scripts = Vec::new();
     let mut base = 0u64;
@@ -515,6 +700,20 @@ fn gen_scripts(r: &mut Rng, thorough: bool) -> Vec<Vec<Op>> {
             }
         }
     }
+    // pressure: bursts written in one piece against a one-slot outbound queue
+    for round in 0..(if thorough { 8 } else { 2 }) {
+        for cap in 1..=3usize {
+            let pre = match round % 3 { 0 => cap, 1 => 0, _ => r.below(cap as u64 + 1) as usize };
+            let extra = if round % 2 == 0 { 8 } else { 3 * cap + r.below(4) as usize };
+            scripts.push(pressure_script(r, cap, round % 2 == 1, nb(), pre, extra));
+        }
+    }
+    if thorough {
+        for cap in [4usize, 8, 16] {
+            let pre = r.below(cap as u64 + 1) as usize;
+            scripts.push(pressure_script(r, cap, false, nb(), pre, 12));
+        }
+    }
     // random scripts: every cap 1..16 and unlimited, with and without middleware
     let rounds = if thorough { 6 } else { 1 };
     for round in 0..rounds {
@@ -533,15 +732,18 @@ fn gen_scripts(r: &mut Rng, thorough: bool) -> Vec<Vec<Op>> {
 // ------------------------------------------------------------------------------------------------
 // running one script
 // ------------------------------------------------------------------------------------------------
-async fn run_script(out: &mut Out, servers: &mut HashMap<(Option<usize>, bool), Srv>, sno: usize, ops: &[(String, Op)], retries: &mut u64) -> bool {
-    let Some((cap_idx, Op::Cap { cap, mw })) = ops.first().cloned() else {
+type SrvKey = (Option<usize>, bool, Option<usize>);
+
+async fn run_script(out: &mut Out, servers: &mut HashMap<SrvKey, Srv>, sno: usize, ops: &[(String, Op)], retries: &mut u64) -> bool {
+    let Some((cap_idx, Op::Cap { cap, mw, ocap })) = ops.first().cloned() else {
         out.oracle_fail("offreader.setup", "script does not start with a cap line", &[]);
         return false;
     };
-    if !servers.contains_key(&(cap, mw)) {
-        servers.insert((cap, mw), start_server(cap, mw).await);
+    let key: SrvKey = (cap, mw, ocap);
+    if !servers.contains_key(&key) {
+        servers.insert(key, start_server(cap, mw, ocap).await);
     }
-    let srv = servers.get(&(cap, mw)).unwrap();
+    let srv = servers.get(&key).unwrap();
     let (tx, rx) = unbounded_channel();
     *srv.sh.events.lock().unwrap() = Some(tx);
     srv.sh.max_gauge.store(0, Ordering::SeqCst);
@@ -555,58 +757,118 @@ async fn run_script(out: &mut Out, servers: &mut HashMap<(Option<usize>, bool), 
     };
     let mut c = Conn { ws, events: rx, sh: srv.sh.clone(), cap, stray: Vec::new(), parked: BTreeMap::new(), answered: BTreeMap::new(), notifies: BTreeSet::new() };
     let lines: Vec<String> = ops.iter().map(|(i, o)| op_line(i, o)).collect();
-    out.config(&op_line(&cap_idx, &Op::Cap { cap, mw }));
+    out.config(&lines[0]);
+    let _ = cap_idx;
     out.count(&format!("offreader.cap.{}", cap.map(|c| c.to_string()).unwrap_or("unlimited".into())));
     out.count(if mw { "offreader.router.with_middleware" } else { "offreader.router.plain" });
+    if ocap.is_some() {
+        out.count("offreader.pressure_scripts(outbound_capacity_1,current_thread_server)");
+    }
     let mw_before = srv.sh.mw_calls.load(Ordering::SeqCst);
     let mut dispatched = 0u64;
     let mut ok = true;
-    for (k, (idx, op)) in ops.iter().enumerate().skip(1) {
+    let mut k = 1;
+    while k < ops.len() && ok {
         out.begin(&lines[k]);
-        let r = match op {
-            Op::Cap { .. } => continue,
-            Op::Arrive { id, blocking, notify, ec } => do_arrive(&mut c, idx, *id, *blocking, *notify, *ec, retries).await,
-            Op::Exit { id, cmd } => do_exit(&mut c, idx, *id, *cmd).await,
-        };
-        let w: Vec<&str> = r.obs.split(' ').collect();
-        let kind = w.get(1).copied().unwrap_or("?");
-        match op {
-            Op::Arrive { blocking, notify, .. } => {
-                out.count(&format!("offreader.arrive.{}{}.{}", if *blocking { "blocking" } else { "inline" }, if *notify { "_notify" } else { "" }, kind));
-                if kind == "admitted" || !*blocking {
-                    dispatched += 1;
+        // (index of the op line, result) pairs produced by this step
+        let mut results: Vec<(usize, OpResult)> = Vec::new();
+        let mut in_burst = false;
+        let mut end_line: Option<usize> = None;
+        match &ops[k].1 {
+            Op::Cap { .. } => {
+                k += 1;
+                continue;
+            }
+            Op::Burst { begin: true } => {
+                out.config(&lines[k]);
+                let mut items = Vec::new();
+                let mut idxs = Vec::new();
+                let mut e = k + 1;
+                while e < ops.len() {
+                    match &ops[e].1 {
+                        Op::Arrive { id, blocking, notify, ec } => {
+                            items.push((ops[e].0.clone(), *id, *blocking, *notify, *ec));
+                            idxs.push(e);
+                        }
+                        _ => break,
+                    }
+                    e += 1;
                 }
-                if !*blocking && !c.parked.is_empty() && cap.map(|cc| c.parked.len() >= cc).unwrap_or(false) {
-                    out.count("offreader.inline_while_saturated");
+                in_burst = true;
+                out.count("offreader.bursts");
+                out.add("offreader.burst_requests", items.len() as u64);
+                let (rs, _broken) = do_burst(&mut c, &items).await;
+                for (i, r) in idxs.into_iter().zip(rs) {
+                    results.push((i, r));
+                }
+                k = e;
+                if k < ops.len() && matches!(ops[k].1, Op::Burst { begin: false }) {
+                    end_line = Some(k);
+                    k += 1;
                 }
             }
-            Op::Exit { cmd, .. } => out.count(&format!("offreader.exit.{}", match cmd { Cmd::Ret => "ret", Cmd::Err(_) => "err", Cmd::Panic => "panic" })),
-            _ => {}
-        }
-        let nontrivial = matches!(op, Op::Exit { .. }) || kind == "dropped" || (kind == "resp" && w.get(3) == Some(&"8")) || !c.parked.is_empty();
-        out.case(&lines[k], &r.obs, nontrivial);
-        // direct oracles on the state after the op
-        let mut fails = r.fails;
-        if let Some(cc) = cap {
-            let mx = c.sh.max_gauge.load(Ordering::SeqCst);
-            if mx > cc as i64 {
-                fails.push(("offreader.cap_exceeded".to_string(), format!("{idx}: {} handlers were running at once on a connection with cap {}", mx, cc)));
+            Op::Burst { begin: false } => {
+                k += 1;
+                continue;
+            }
+            Op::Arrive { id, blocking, notify, ec } => {
+                results.push((k, do_arrive(&mut c, &ops[k].0, *id, *blocking, *notify, *ec, retries).await));
+                k += 1;
+            }
+            Op::Exit { id, cmd } => {
+                results.push((k, do_exit(&mut c, &ops[k].0, *id, *cmd).await));
+                k += 1;
             }
         }
-        if let Op::Arrive { id, blocking: true, notify: false, .. } = op {
-            if kind == "resp" {
-                let (rid, rec) = (w.get(2).and_then(|x| x.parse::<u64>().ok()), w.get(3).and_then(|x| x.parse::<u32>().ok()));
-                if rid != Some(*id) || rec != Some(RESOURCE_EXHAUSTED) {
-                    fails.push(("offreader.saturation.reply".to_string(), format!("{idx}: refused request {id} was answered with id {:?} ec {:?} (want its id and {})", rid, rec, RESOURCE_EXHAUSTED)));
+        for (i, r) in results {
+            let (idx, op) = (&ops[i].0, &ops[i].1);
+            let w: Vec<&str> = r.obs.split(' ').collect();
+            let kind = w.get(1).copied().unwrap_or("?");
+            match op {
+                Op::Arrive { blocking, notify, .. } => {
+                    out.count(&format!("offreader.arrive.{}{}.{}", if *blocking { "blocking" } else { "inline" }, if *notify { "_notify" } else { "" }, kind));
+                    if in_burst {
+                        out.count(&format!("offreader.burst.{}", kind));
+                    }
+                    if kind == "admitted" || !*blocking {
+                        dispatched += 1;
+                    }
+                    if !*blocking && !c.parked.is_empty() && cap.map(|cc| c.parked.len() >= cc).unwrap_or(false) {
+                        out.count("offreader.inline_while_saturated");
+                    }
+                }
+                Op::Exit { cmd, .. } => out.count(&format!("offreader.exit.{}", match cmd { Cmd::Ret => "ret", Cmd::Err(_) => "err", Cmd::Panic => "panic" })),
+                _ => {}
+            }
+            let nontrivial = matches!(op, Op::Exit { .. }) || kind == "dropped" || (kind == "resp" && w.get(3) == Some(&"8")) || !c.parked.is_empty();
+            out.case(&lines[i], &r.obs, nontrivial);
+            // direct oracles on the state after the op
+            let mut fails = r.fails;
+            if let Some(cc) = cap {
+                let mx = c.sh.max_gauge.load(Ordering::SeqCst);
+                if mx > cc as i64 {
+                    fails.push(("offreader.cap_exceeded".to_string(), format!("{idx}: {} handlers were running at once on a connection with cap {}", mx, cc)));
                 }
             }
+            if let Op::Arrive { id, blocking: true, notify: false, .. } = op {
+                if kind == "resp" {
+                    let (rid, rec) = (w.get(2).and_then(|x| x.parse::<u64>().ok()), w.get(3).and_then(|x| x.parse::<u32>().ok()));
+                    if rid != Some(*id) || rec != Some(RESOURCE_EXHAUSTED) {
+                        fails.push(("offreader.saturation.reply".to_string(), format!("{idx}: refused request {id} was answered with id {:?} ec {:?} (want its id and {})", rid, rec, RESOURCE_EXHAUSTED)));
+                    }
+                }
+            }
+            // replay = the script up to the end of this step (a burst is replayed whole)
+            let upto = if in_burst { k.min(lines.len()) } else { i + 1 };
+            for (sig, detail) in &fails {
+                out.oracle_fail(sig, detail, &lines[..upto].to_vec());
+            }
+            if r.broken {
+                ok = false;
+            }
         }
-        for (sig, detail) in &fails {
-            out.oracle_fail(sig, detail, &lines[..=k].to_vec());
-        }
-        if r.broken {
-            ok = false;
-            break;
+        if let Some(e) = end_line {
+            out.config(&lines[e]);
         }
     }
     // end of script: nothing may still be running if the script released everything; no stray frames
@@ -631,13 +893,13 @@ async fn run_script(out: &mut Out, servers: &mut HashMap<(Option<usize>, bool), 
     let _ = tokio::time::timeout(Duration::from_millis(500), c.ws.close(None)).await;
     drop(c);
     // wait until the server's handlers of this connection have all left (gauge back to 0)
-    let srv = servers.get(&(cap, mw)).unwrap();
+    let srv = servers.get(&key).unwrap();
     let t0 = Instant::now();
     while srv.sh.gauge.load(Ordering::SeqCst) != 0 && t0.elapsed() < Duration::from_secs(10) {
         tokio::time::sleep(Duration::from_millis(2)).await;
     }
     if srv.sh.gauge.load(Ordering::SeqCst) != 0 {
-        servers.remove(&(cap, mw));
+        servers.remove(&key);
     }
     ok
 }
@@ -646,7 +908,7 @@ fn main() {
     let args = Args::parse();
     quiet_panics();
     let mut out = Out::new(&args.out);
-    out.rule = "event scripts on one raw WebSocket connection per script against a real WebSocketServer: caps 1..16 and unlimited, routers with and without middleware, the four `_blocking` registrars (by request id), arrivals up to 4x cap of blocking requests (1 in 5 a notify) interleaved with inline requests (some failing) and exits of random running handlers (return / error code / panic), every release order for caps 1..3 (thorough: with every assignment of exit kinds), each script ends by releasing everything, admitting cap-many further requests, one refusal, and releasing again. Distinct by op line; non-trivial = an exit, a saturation reply/drop, or any event while handlers are parked".into();
+    out.rule = "event scripts on one raw WebSocket connection per script against a real WebSocketServer: caps 1..16 and unlimited, routers with and without middleware, the four `_blocking` registrars (by request id), arrivals up to 4x cap of blocking requests (1 in 5 a notify) interleaved with inline requests (some failing) and exits of random running handlers (return / error code / panic), every release order for caps 1..3 (thorough: with every assignment of exit kinds), pressure scripts (outbound queue of one slot, server on a current-thread runtime, caps 1..3): bursts of cap parked + 3..12 further blocking requests + inline requests with 48 KiB answers written to the socket in one piece and read only afterwards; each script ends by releasing everything, admitting cap-many further requests, one refusal, and releasing again. Distinct by op line; non-trivial = an exit, a saturation reply/drop, or any event while handlers are parked".into();
     let rt = tokio::runtime::Builder::new_multi_thread().worker_threads(4).max_blocking_threads(256).enable_all().build().unwrap();
     let mut rng = Rng::new(args.seed);
     let scripts: Vec<Vec<(String, Op)>> = match args.replay_ops() {
@@ -666,7 +928,7 @@ fn main() {
     };
     let mut retries = 0u64;
     rt.block_on(async {
-        let mut servers: HashMap<(Option<usize>, bool), Srv> = HashMap::new();
+        let mut servers: HashMap<SrvKey, Srv> = HashMap::new();
         let mut broken = 0;
         for (sno, ops) in scripts.iter().enumerate() {
             if !run_script(&mut out, &mut servers, sno, ops, &mut retries).await {
